@@ -48,7 +48,7 @@ def _helper_body(draw, params, earlier, want):
         if ns:
             n0 = draw(st.sampled_from(ns))
             opts += [n0, n0, f"-{n0}", f"{n0} * 2 + 1", f"(lambda {n0}: {n0} + 1)({n0} * 2)", f"({n0} if {n0} > 1 else 0)"]
-            opts += [f"(lambda q: q * 10 + q)({n0} - 1)", f"(lambda x: x * x + x)({n0})"]
+            opts += [f"(lambda q: q * 10 + q)({n0} - 1)", f"(lambda x: x * x + x)({n0})", f"(lambda y_, {n0}={n0}: {n0} * 3 + y_)(1)"]
             if len(ns) > 1:
                 opts += [f"(lambda q: q * 10 + q)({ns[0]} - {ns[1]})", f"(lambda {ns[0]}: {ns[0]} * 10 + {ns[0]})({ns[1]} - {ns[0]})",
                          ns[1], f"{ns[0]} - {ns[1]}", f"(lambda q: q + {ns[0]})({ns[1]})", f"(lambda {ns[1]}, {ns[0]}: {ns[0]} - {ns[1]})({ns[0]}, {ns[1]})"]
@@ -62,6 +62,7 @@ def _helper_body(draw, params, earlier, want):
                 bnd = draw(st.sampled_from(["x", "j", "q", "a", "b"]))  # the binder may be spelled like a parameter of a calling helper
                 if bnd in (s0, ns[0]):
                     bnd = "q"
+                opts += [f"(lambda y_, {ns[0]}={ns[0]}: {ns[0]} + y_)(1)"]  # a default value is read outside the lambda: it is the helper's parameter
                 opts += [f"{s0}.Where(lambda {bnd}: {bnd} > {ns[0]}).Count()"] * 2 + [f"{s0}.Where(lambda {ns[0]}: {ns[0]} > 1).Count() + {ns[0]}"]
         for h in earlier:
             if h["ret"] == "N" and depth > 0:
